@@ -381,6 +381,18 @@ Proof.
   destruct (run_attempt cfg 0 0 (ideal_stages a) ds); first [lia | exact B].
 Qed.
 
+(* configuration: an omitted data_timeout falls back to the command timeout *)
+Lemma eff_data_fallback : forall u r,
+  r_data r = None -> t_data (eff_ccfg u r) = t_command (eff_ccfg u r).
+Proof. intros u r H. unfold eff_ccfg. cbn. rewrite H. reflexivity. Qed.
+
+Example fallback_chain_examples :
+  chain_ok ["data_timeout"; "command_timeout"]%string = true
+  /\ chain_ok ["data_timeout"]%string = false
+  /\ timeouts_have_fallback [mk_site "C" "_send" "send_data" KExchange (Some (TData, 1)) 2]
+                            [("C"%string, TData, ["data_timeout"%string])] = false.
+Proof. vm_compute. repeat split; reflexivity. Qed.
+
 (* examples: the hypotheses are satisfiable by non-trivial values *)
 Definition ex_cfg : ccfg := {| t_connect := 50; t_command := 100; t_data := 300; t_single := 0 |}.
 Definition ex_acfg : acfg := mk_acfg false false false true false false 2.
